@@ -50,7 +50,7 @@ def common_off(rnd, _c={}):
 
 SPEC = semprop.Spec(
     prop="C03", programs=programs, oracles=("diff",),
-    theorems=["C03_refuted_widening_fill", "C03_fixed_ternary_arms", "C03_refuted", "C03_repaired_witnesses", "C03_casts_correct_repaired", "C03_cast_table_is_the_compilers"],
+    theorems=["C03_fixed_widening_fill", "C03_refuted_redeclared_conversion", "C03_fixed_ternary_arms", "C03_refuted", "C03_repaired_witnesses", "C03_casts_correct_repaired", "C03_cast_table_is_the_compilers"],
     note="8x8 source/target pairs x {explicit cast, initialisation, assignment, store}, register targets, argument passing, "
          "return through ret_val (sub-routine call), boolean sources, chains of three conversions",
 )
